@@ -45,8 +45,12 @@ var EbigOdd = Embed{Name: "E_bigodd", Big: true, F: func(x, y int64) Pt {
 	return Pt{X: (x-1)*134217729 + 3*(y-1), Y: (y-1)*134217731 + 5*(x-1)}
 }}
 
+// nearly horizontal edges: |dx/dy| between 140 and 280 for every non-horizontal lattice edge (the branch of the
+// sweep that repairs an intersection point computed outside its scanbeam distinguishes |dx| > 100)
+var Eflat = Embed{Name: "E_flat", F: func(x, y int64) Pt { return Pt{X: 700*x + 3*y, Y: 5 * y} }}
+
 func EmbedByName(n string) Embed {
-	for _, e := range []Embed{Eax, Esh, Ean, Eunit, Eax20, Esh20, Ebig, EbigSk, EbigOdd} {
+	for _, e := range []Embed{Eax, Esh, Ean, Eunit, Eax20, Esh20, Ebig, EbigSk, EbigOdd, Eflat} {
 		if e.Name == n {
 			return e
 		}
